@@ -11,6 +11,23 @@ from vf import common
 def main():
     pid, work, unit_timeout = sys.argv[1], sys.argv[2], float(sys.argv[3])
     want_bc = sys.argv[4] == "1"
+    warm = len(sys.argv) > 5 and sys.argv[5] == "warm"
+    if warm:
+        # single writer of the shared numba cache
+        import importlib
+
+        with common.cache_lock(want_bc, exclusive=True):
+            os.environ["VERIF_NUMBA_PRIVATE"] = common.shared_cache_dir(want_bc)
+            common.setup_env(boundscheck=want_bc, cache_dir=common.shared_cache_dir(want_bc))
+            faulthandler.enable()
+            faulthandler.dump_traceback_later(unit_timeout, exit=True)
+            m = importlib.import_module("vf.checks." + pid.lower())
+            if hasattr(m, "warm"):
+                m.warm()
+        os._exit(0)
+    private = os.path.join(work, f"nb-{os.getpid()}")
+    common.copy_shared_cache(want_bc, private)
+    os.environ["VERIF_NUMBA_PRIVATE"] = private
     with open(os.path.join(work, "units.json")) as f:
         units = json.load(f)
     faulthandler.enable()
@@ -50,6 +67,9 @@ def main():
             f.write(common.canon(r))
         os.rename(tmp, os.path.join(work, "out", f"{k}.json"))
     sys.stdout.flush()
+    import shutil
+
+    shutil.rmtree(private, ignore_errors=True)
     os._exit(0)
 
 
